@@ -236,8 +236,12 @@ def tool_family(ck, rnd, tier, bd, wd, trace, owner):
         tr = os.path.join(d, "trace.ndjson")
         env = dict(os.environ); env.update({"ZV_ROLES": roles, "ZV_TRACE": tr})
         p = subprocess.run(argv, cwd=d, env=env, stdout=subprocess.DEVNULL, stderr=subprocess.DEVNULL, timeout=60)
-        if p.returncode != 0 or not oracle(d):
-            raise Broken("fault-free tool run failed its own oracle: %s (rc=%s)" % (tool, p.returncode))
+        if p.returncode == 0 and not oracle(d):      # exit 0 with a wrong output, and not even a fault was needed
+            trace.append({"op": "wstart", "case": "%s, no fault" % tool}); owner.append("tool-base%d" % ri)
+            trace.append({"op": "toolf", "tool": tool, "status": 0, "outOk": False}); owner.append("tool-base%d" % ri)
+            continue
+        if p.returncode != 0:                          # fails without any fault on this tree: its fault points cannot be enumerated
+            ck.notes.append("tool run skipped, it fails fault-free on this tree: %s (rc=%s)" % (tool, p.returncode)); continue
         cnt = {}
         for l in (open(tr) if os.path.exists(tr) else []):
             c = json.loads(l); key = (c["k"], c["role"]); cnt[key] = cnt.get(key, 0) + 1
@@ -298,13 +302,18 @@ def zckdl_family(ck, rnd, tier, bd, wd, trace, owner):
             if T is not None: open(os.path.join(d, "B.zck"), "wb").write(T)
             tr = os.path.join(d, "trace.ndjson")
             st = zckdltier.run_zckdl(bd, d, url, src="A.zck", trace=tr)
-            if st != 0 or open(os.path.join(d, "B.zck"), "rb").read() != B:
-                raise Broken("fault-free zckdl run failed (status %s)" % st)
+            okB = os.path.exists(os.path.join(d, "B.zck")) and open(os.path.join(d, "B.zck"), "rb").read() == B
+            if st == 0 and not okB:
+                trace.append({"op": "wstart", "case": "zckdl, no fault"}); owner.append("dl-base%d" % ti)
+                trace.append({"op": "toolf", "tool": "zckdl", "status": 0, "outOk": False}); owner.append("dl-base%d" % ti)
+                continue
+            if st != 0:
+                ck.notes.append("zckdl runs skipped, the fault-free update fails on this tree (status %s)" % st); continue
             cnt = {}
             for l in (open(tr) if os.path.exists(tr) else []):
                 c = json.loads(l); key = (c["k"], c["role"]); cnt[key] = cnt.get(key, 0) + 1
             if not any(r == "tgt" for (_, r) in cnt) or not any(r == "src" for (_, r) in cnt):
-                raise Broken("zckdl's target/source calls were not observed")
+                ck.notes.append("zckdl's target/source calls were not observed"); continue
             for (k, role), n in sorted(cnt.items()):
                 ks = range(1, n + 1) if (tier == "thorough" or n <= 8) else sorted(set([1, 2, 3, n - 1, n, n // 2] + rnd.sample(range(1, n + 1), 4)))
                 for nth in ks:
